@@ -3,12 +3,57 @@
 // bytes written = constants, gaps zero, size()/alignment() cover everything.
 // The Arena is environment (C18 checks it): Arena::_alloc_oneshot is a harness stub handing out one small typed object per
 // request, so that the solver resolves the pool's tagged node links per object.
+// Compiled twice: unit `pool` links the real constpool.cpp (real red-black ArenaTree, at most two nodes per tree); unit
+// `poolm` (h_poolm.cpp, C19_MODEL_UNIT) compiles constpool.cpp against tree_model.h and adds the scenarios with more nodes.
+#if !defined(C19_MODEL_UNIT)
 #include <asmjit/core.h>
 #include <asmjit/core/constpool.h>
+#endif
 #include <new>
 #include "verif.h"
 using namespace asmjit;
 
+#if defined(C19_MODEL_UNIT)
+// Environment of the model unit: one typed object per request, laid out like what the pool puts there (tree node: two child
+// links, flags, offset, data bytes; gap record: link, offset, size), taken from a small table that belongs to the current
+// add() call (cur_add is set by the harness before each call and is a constant there). The solver then resolves every node
+// access to a member of one of at most seven objects instead of a byte range of any object.
+struct NodeSlot { void* link[2]; uint32_t flags; uint32_t offset; uint8_t data[32]; };   // = ConstPool::Node + data
+struct GapSlot { void* next; size_t offset; size_t size; };                               // = ConstPool::Gap
+static_assert(sizeof(ConstPool::Node) == 24 && sizeof(ConstPool::Gap) == sizeof(GapSlot), "slot layouts follow the pool's records");
+static const unsigned kAdds = 6, kNodesPerAdd = 7, kGapsPerAdd = 4;   // add #5 = requests outside the scenario's adds (none expected)
+#define C19_SLOTS(K) static NodeSlot n##K##_0, n##K##_1, n##K##_2, n##K##_3, n##K##_4, n##K##_5, n##K##_6; static GapSlot g##K##_0, g##K##_1, g##K##_2, g##K##_3; \
+  static NodeSlot* ntab##K[kNodesPerAdd]; static GapSlot* gtab##K[kGapsPerAdd];
+C19_SLOTS(0) C19_SLOTS(1) C19_SLOTS(2) C19_SLOTS(3) C19_SLOTS(4) C19_SLOTS(5)
+static unsigned cur_add, nodes_used, gaps_used; static bool slot_overflow;
+ASMJIT_BEGIN_NAMESPACE
+void* Arena::_alloc_oneshot(size_t size) noexcept {
+  if (size == sizeof(GapSlot)) {
+    if (gaps_used >= kGapsPerAdd) { slot_overflow = true; return nullptr; }
+    unsigned i = gaps_used++;
+    switch (cur_add) { case 0: return gtab0[i]; case 1: return gtab1[i]; case 2: return gtab2[i]; case 3: return gtab3[i]; case 4: return gtab4[i]; default: return gtab5[i]; }
+  }
+  if (size > sizeof(NodeSlot) || nodes_used >= kNodesPerAdd) { slot_overflow = true; return nullptr; }
+  unsigned i = nodes_used++;
+  switch (cur_add) { case 0: return ntab0[i]; case 1: return ntab1[i]; case 2: return ntab2[i]; case 3: return ntab3[i]; case 4: return ntab4[i]; default: return ntab5[i]; }
+}
+ASMJIT_END_NAMESPACE
+static inline void begin_add(unsigned k) { cur_add = k; nodes_used = 0; gaps_used = 0; }
+alignas(8) static unsigned char arena_mem[sizeof(Arena)];
+static inline Arena& env_arena() {
+#if !defined(VERIF_CBMC)
+  memset(arena_mem, 0, sizeof arena_mem);   // statics are zero at the start of a solver run; natively runs repeat in one process
+#define C19_ZERO(K) memset(&n##K##_0, 0, sizeof(NodeSlot)); memset(&n##K##_1, 0, sizeof(NodeSlot)); memset(&n##K##_2, 0, sizeof(NodeSlot)); memset(&n##K##_3, 0, sizeof(NodeSlot)); \
+  memset(&n##K##_4, 0, sizeof(NodeSlot)); memset(&n##K##_5, 0, sizeof(NodeSlot)); memset(&n##K##_6, 0, sizeof(NodeSlot));
+  C19_ZERO(0) C19_ZERO(1) C19_ZERO(2) C19_ZERO(3) C19_ZERO(4) C19_ZERO(5)
+#endif
+  slot_overflow = false; begin_add(5);
+#define C19_TAB(K) ntab##K[0] = &n##K##_0; ntab##K[1] = &n##K##_1; ntab##K[2] = &n##K##_2; ntab##K[3] = &n##K##_3; ntab##K[4] = &n##K##_4; ntab##K[5] = &n##K##_5; ntab##K[6] = &n##K##_6; \
+  gtab##K[0] = &g##K##_0; gtab##K[1] = &g##K##_1; gtab##K[2] = &g##K##_2; gtab##K[3] = &g##K##_3;
+  C19_TAB(0) C19_TAB(1) C19_TAB(2) C19_TAB(3) C19_TAB(4) C19_TAB(5)
+  return *reinterpret_cast<Arena*>(arena_mem);   // _ptr == _end == null: every request goes to _alloc_oneshot
+}
+#else
 struct Slot { uint64_t w[7]; };   // 56 bytes: tree node header (24) + up to 32 bytes of data; Gap records (24)
 static Slot s0, s1, s2, s3, s4, s5, s6, s7, s8, s9, s10, s11, s12, s13, s14, s15, s16, s17, s18, s19;
 static Slot* slot_table[20];
@@ -26,8 +71,14 @@ static inline Arena& env_arena() {
   for (unsigned i = 0; i < 20; i++) slot_table[i] = t[i];
   return *reinterpret_cast<Arena*>(arena_mem);   // _ptr == _end == null: every request goes to _alloc_oneshot
 }
+static inline void begin_add(unsigned) {}
+#endif
 
+#if defined(C19_MODEL_UNIT)
+static const unsigned MAXK = 5, MAXB = 32;
+#else
 static const unsigned MAXK = 3, MAXB = 32;
+#endif
 struct Entry { bool ok; size_t size, off; uint8_t bytes[MAXB]; };
 
 // long loops live in named functions so that their unwinding bound can be set apart from the pool's own (short) loops
@@ -72,6 +123,7 @@ static inline void add_sized(ConstPool& pool, Entry& e, const uint8_t* data) {
   verif_observe(uint32_t(err)); verif_observe(off);
 }
 
+#if !defined(C19_MODEL_UNIT)
 // A scenario = a fixed sequence of sizes S1, S2, S3 (NONE = no third add) with symbolic data. The sizes are constants because
 // every add into a tree that already holds nodes is expensive for the solver (tagged child links); with symbolic sizes the
 // trees touched are symbolic too and no verdict is reached. The data of a later add is fresh, or a copy of the first
@@ -177,3 +229,4 @@ HARNESS h_pool_8_lookup() {
   V_ASSERT(pool._tree[ConstPool::kIndex8].get(data) != nullptr && pool._tree[ConstPool::kIndex8].get(data)->_shared == 0 && pool._tree[ConstPool::kIndex2].is_empty(), "constpool: the parent is a non-shared 8-byte node and nothing below 4 bytes is registered");
   V_WITNESS("constpool-halves-shared");
 }
+#endif  // !C19_MODEL_UNIT
